@@ -488,3 +488,13 @@ obligation('C07-i', 'T5 T7 T3', 'proposals are filtered by finite prior log dens
 def c07_j(ctx):
     from .base import zero_is_valid_obligation
     zero_is_valid_obligation(ctx, ['threshold'])
+
+
+# Importance weights divide the prior by the mixture density, and every population's stored
+# weights are handed to the mixture code: its obligations are obligations of the weight clause.
+obligation('C07-k', 'T7 T8', 'mixture density = sum of w_k N(x; m_k, cov) with the shared '
+           'covariance; stored weights are not modified by normalisation (shared with C13-b)',
+           floor=4,
+           necessary='a variance used as a standard deviation changes the denominator of every '
+                     'importance weight; in-place normalisation rewrites the weights of stored '
+                     'populations')(_C13.c13_b)
